@@ -1,1 +1,30 @@
-From VP Require Import Base.Tactics Sase.Model Sase.Props.
+(* Pins the C03 statements. Compiled on every run. *)
+From VP Require Import Base.Tactics Zdd.Model Zdd.ProofsBase Zdd.ProofsPwo Zdd.ProofsArena
+  Sase.Model Sase.ProofsBounds Sase.ProofsSound Sase.ProofsSoundEngine Sase.ProofsCompile Sase.ProofsKleene Sase.Props.
+Check (C03_capture_is_power_set :
+  forall k e al, KInv k -> exists k', kc_extend k e al = Some k' /\ KInv k' /\
+    k_events k' = k_events k ++ [(e, al)] /\ k_next k' = (k_next k + 1)%N /\
+    k_deferred k' = k_deferred k /\ k_needs k' = k_needs k).
+Check (C03_capture_family :
+  forall k, KInv k -> k_needs k = true ->
+    forall s, In_fam (atable (k_arena k)) (k_handle k) s <-> subset_of (k_next k) s).
+Check (C03_enumeration :
+  forall r k p mx, KInv k -> k_needs k = true ->
+  exists combos all,
+    iter_f (S (length (atable (k_arena k)))) (atable (k_arena k)) (k_handle k) = Some combos /\
+    NoDup combos /\ (forall s, In s combos <-> subset_of (k_next k) s) /\
+    enum_all r k p combos = Some all /\
+    enumerate r k p mx = Some (firstn (cap_of mx) all)).
+Check (C03_admissible_exactly :
+  forall r k p cs all m, enum_all r k p cs = Some all ->
+  (In m all <-> exists ix ents, In ix cs /\ ix <> [] /\ nth_entries (k_events k) ix = Some ents /\
+                                deferred_ok p (map fst ents) (r_cap r) = true /\ m = mk_match r k ix ents)).
+Check (C03_distinct :
+  forall r k p cs all, enum_all r k p cs = Some all -> NoDup cs -> NoDup (map m_combo all)).
+Check (eq_refl : subset_of = fun n s => StronglySorted N.lt s /\ Forall (fun x => (x < n)%N) s).
+Check (eq_refl : cap_of = fun mx => Nat.max mx 1).
+Print Assumptions C03_capture_is_power_set.
+Print Assumptions C03_capture_family.
+Print Assumptions C03_enumeration.
+Print Assumptions C03_admissible_exactly.
+Print Assumptions C03_distinct.
